@@ -14,6 +14,9 @@ CLAIMS = {
  'C09': "all amplitude/OPD/optics scalars for FFT grids 2..5/8 per axis of both parities, sampled accepted output shapes, scratch buffers exact/larger/smaller with arbitrary content, tilt routes, wavelength free inside the rounding band",
  'C11': "symbolic Noll index j <= 45/120 (case split decided by z3 with the exact real square root), radial polynomials n <= 10/16 for all rho incl. |R| <= 1 on [0,1] and exact orthogonality integrals, mode values j <= 21/45 for all (rho, theta), default coordinates on sampled/all supports of arrays <= 3x3",
  'C12': "all coefficient vectors and all OPDs (box [-1,1]) for sampled ordered mode subsets (<= 3 of Noll 1..6 / <= 4 of 1..11) on four mask families, both normalisations, default and supplied coordinates; linear real arithmetic with 1e-9 tolerance",
+ 'C13': "all values, fill values and scalar/vector operands for sampled (grid pair, operator, sampling, unit pair) configurations over an enumerated exact-rational grid family (lengths <= 4/6), 4 operators (+ integer powers), 16 unit pairs",
+ 'C14': "all 64 wavelength-unit and 27 flux-unit triples (exhaustive) on symbolic fluxes/wavelengths; Spectrum.to on symbolic grids of length <= 3/4 in every (from, to, valueunit) combination; Planck radiance/exitance for all wavelengths and temperatures in all 12 unit pairs",
+ 'C15': "integrate with symbolic limits (split by the explorer) on 6 grids, linearity/additivity/exactness; bin for all non-negative values on 3 grids x 3 centre sets x end treatments x methods; every program of <= 2/3 resizing operations with symbolic arguments",
  'C20': "pad: all contents for every shape pair <= 4/5 (cubes <= 3/4); subarray: unbounded symbolic shifts; boundary family on sampled/all supports <= 3x3 with symbolic values; rebin; drawn shapes with symbolic radius/size/shift; hexagonal segments on a symbolic real sample position, radius and gap",
 }
 NA = {}
